@@ -101,6 +101,13 @@ def real_side(cases_json):
         p.join()
         rec['idents2'] = [r[0] for r in res2]
         rec['digests2'] = [_dig(r[1]) for r in res2]
+        # third workload: maxtasksperchild=1 - every chunk is run by a freshly forked replacement worker
+        np.random.seed(case['seed'])
+        p = mp.get_context('fork').Pool(processes=case['nproc'], maxtasksperchild=1)
+        res3 = p.starmap(traced_member, _args_for(case, emd, x), chunksize=1)
+        p.close()
+        p.join()
+        rec['digests3'] = [_dig(r[1]) for r in res3]
         out.append(rec)
     print('@@' + json.dumps(out))
 
@@ -134,8 +141,13 @@ def sim_side(args):
             p = emd.sift.mp.Pool(processes=case['nproc'])
             res2 = p.starmap(inplace_member, [(A, i) for i in range(case['nens'] + 3)], chunksize=case['chunksize'])
             p.close()
+            w.poolcfg = {'start': 'fork', 'durmodel': 'uniform'}
+            np.random.seed(case['seed'])
+            p = emd.sift.mp.Pool(processes=case['nproc'], maxtasksperchild=1)
+            res3 = p.starmap(fid_member, _args_for(case, emd, x), chunksize=1)
+            p.close()
             out.append({'k': case['k'], 'digests': [_dig(r) for r in res], 'assign': w.batches[0]['assign'],
-                        'digests2': [_dig(r) for r in res2]})
+                        'digests2': [_dig(r) for r in res2], 'digests3': [_dig(r) for r in res3]})
         finally:
             seams.end_run(w)
     return out
@@ -162,7 +174,7 @@ def run(nruns, seed, verbose=True):
     bad = 0
     multi = 0
     for case, real, sim in zip(cs, reals, sims):
-        same = real['digests'] == sim['digests'] and real['digests2'] == sim['digests2']
+        same = real['digests'] == sim['digests'] and real['digests2'] == sim['digests2'] and real['digests3'] == sim['digests3']
         nworkers = len(set(real['idents']))
         multi += 1 if nworkers > 1 else 0
         if not same:
@@ -176,7 +188,7 @@ def run(nruns, seed, verbose=True):
           '%d showed duplicated member results on the real pool (%.1fs)' % (len(cs), bad, multi, dup, time.time() - t0), flush=True)
     summary = {'traces_validated_against_impl': len(cs) - bad, 'mismatches': bad, 'multi_worker_cases': multi,
                'real_pool_duplicate_cases': dup,
-               'cases': [{'case': c, 'real_job_to_worker': r['idents'], 'identical': r['digests'] == s['digests'] and r['digests2'] == s['digests2']}
+               'cases': [{'case': c, 'real_job_to_worker': r['idents'], 'identical': r['digests'] == s['digests'] and r['digests2'] == s['digests2'] and r['digests3'] == s['digests3']}
                          for c, r, s in zip(cs, reals, sims)]}
     return (2 if bad else 0), summary
 
